@@ -141,3 +141,41 @@ def cell_units(prop):
                             node_loader=_loader(dotted), prop=prop,
                             notes='region: body of the loop that fills row[...] (extracted every run); getter under an assumed contract'))
     return out
+
+
+# ---- the three time columns of list_files: each shows ITS OWN recorded instant ------------------------------------------------------
+def _time_setup(which):
+    def setup(b):
+        me = shared.repo_self(b, props=False, cache=False)
+        b.me = me
+        md = b.st.new_py('dict', {f'st_{w}time_ns': sym.const(INT, f'recorded_{w}time_ns') for w in 'mca'})
+        b.bind('file_data', b.st.new_py('dict', {'metadata': md, 'path': sym.const(STR, 'file_path')}))
+        b.md = md
+        for nm in ('snapshot_path', 'snapshot_chunks', 'snapshot_data'):
+            b.bind(nm, Obj(f'<{nm}>'))
+        DT = models.opaque_type('DateTime')
+
+        def ts_to_dt(interp, st, args, kwargs):
+            st.emit('ts_to_dt', metadata=args[0], key=args[1])
+            dt = Obj('<datetime>', isoformat=Model('isoformat', lambda i, s, a, k: (s.emit('isoformat', kwargs=dict(k)), iter([(s, sym.fresh(STR, 'shown'))]))[1]))
+            yield st, dt
+
+        me._attrs['_metadata_ts_to_dt'] = Model('_metadata_ts_to_dt', ts_to_dt)
+    return setup
+
+
+def _time_post(prop, which):
+    def post(res):
+        b = res.builder
+        for p in res.paths:
+            ev = p.events('ts_to_dt')
+            ok = p.kind == 'return' and len(ev) == 1 and ev[0].data['key'] == f'st_{which}time_ns' and ev[0].data['metadata'] is b.md
+            # the "modified / created / accessed at" cell is computed from the recorded instant OF THAT KIND
+            res.oblige(p, f'{prop}.file_time[{which}].shows_the_recorded_instant_of_its_own_kind', z3.BoolVal(bool(ok)),
+                       meta={'keys_read': [str(e.data['key']) for e in ev]})
+    return post
+
+
+def time_getter_units(prop):
+    return [Unit(f'{prop}.list_files.time_column[{w}time]', REPO_PY, f'Repository._format_file_{w}time', _time_setup(w), _time_post(prop, w), prop=prop)
+            for w in 'mca']
